@@ -4,6 +4,7 @@ import (
 	"encoding/binary"
 	"fmt"
 	"math/rand"
+	"strings"
 )
 
 // Correspondence glue for C16: the Lean models of the length-prefixed NAL-unit walkers (Model/Nalu.lean, proved total
@@ -112,7 +113,36 @@ func c16CodecCorrespondence(c *Ctx) {
 	}
 }
 
-func init() {
-	// development entry (the C16 property entry calls c16WalkerCorrespondence from its generator)
-	props["C16m"] = &propDef{rule: "dev: hostile walker correspondence only", gen: func(c *Ctx) { c16WalkerCorrespondence(c); c16CodecCorrespondence(c) }, exec: execC14}
+// c16ModelCorrespondence: all model-vs-code comparisons of C16 (walkers, ADTS/ASC, SEI, AVC SPS) on hostile inputs.
+// The generator is seeded separately so that the hostile-input search below keeps its own random stream.
+func c16ModelCorrespondence(c *Ctx) {
+	saved := c.R
+	c.R = rand.New(rand.NewSource(c.Seed*7919 + 17))
+	c16WalkerCorrespondence(c)
+	c16CodecCorrespondence(c)
+	n := c.N(1500, 12000)
+	for i := 0; i < n; i++ {
+		s := genAVCSPSOpt(c.R, esOpt{ID: -1})
+		avcSPSModelCases(c, c.R, s.NALU)
+	}
+	c.R = saved
+}
+
+// execC16Model answers the protocol lines of the model correspondences (they belong to the C14/C17/C18/C15 vocabularies).
+func execC16Model(req string) (string, bool) {
+	f := strings.Fields(req)
+	if len(f) == 0 {
+		return "", false
+	}
+	switch f[0] {
+	case "tobs", "nalus", "types", "contains", "ps", "hasps", "anytype":
+		return execC14(req), true
+	case "asc.dec", "adts.dec":
+		return execC18(req), true
+	case "tc.dec", "mdcv.dec", "cll.dec", "sei.extract":
+		return execC17(req), true
+	case "avcspsm":
+		return execC15(req), true
+	}
+	return "", false
 }
